@@ -67,9 +67,11 @@ def run(ctx):
     for kind in kinds:
         for (pre, pkw, opt) in pre_list:
             for rep in range(reps):
-                nsname = "numpy" if kind in ("emcee_smc", "emcee") else ctx.rng.choice(["numpy", "torch", "jax"])
+                # namespaces in rotation (every sampler class meets every namespace it supports in every run)
+                rot = ctx.extra["ns_rotation"] = ctx.extra.get("ns_rotation", 0) + 1
+                nsname = "numpy" if kind == "emcee" else ["numpy", "torch", "jax"][rot % 3]
                 if kind == "blackjax_smc":
-                    nsname = ctx.rng.choice(["numpy", "jax"])
+                    nsname = ["numpy", "jax"][rot % 2]
                 if pre == "flow":
                     nsname = "numpy" if kind in ("emcee_smc", "emcee") else "torch"
                 xp = NS[nsname]
@@ -108,6 +110,14 @@ def run(ctx):
                     z[0] = z[0] * 0 + 50.0           # far outside a box prior when the map is unbounded
                 beta = ctx.rng.choice([1.0, 0.5, 0.25, 1e-3, 0.999])
                 zin = z if T.xp.__name__.endswith("numpy") or kind in ("emcee_smc", "emcee") else T.xp.asarray(z, dtype=T.dtype)
+                # an undefined (NaN) likelihood at a point INSIDE the prior support, in every namespace: row 1 (its pre-image is known
+                # before the kernel's log-density is evaluated)
+                try:
+                    x_pre = np.asarray(nsutil.to_list(T.inverse(zin)[0]), float).reshape(-1, dims)
+                    if (ctx.rng.random() < 0.6 or nsname == "jax") and np.all(np.isfinite(x_pre[1])) and np.all(np.abs(x_pre[1]) < 4.9):
+                        tgt.nan_above = float(x_pre[1, 0]) - 1e-9
+                except Exception:
+                    pass
                 tgt.calls.clear()
                 try:
                     if kind in ("minipcn", "emcee"):
